@@ -193,6 +193,7 @@ func rulesC15(w *World, r *Report) {
 		}
 		aiOK = have["p0."+stepF+" <= 0"] && have["p0."+ptsF+" <= 0"]
 	}
+	ruleAllArchivesValidated(w, r, "C15.R4")
 	reField := regexp.MustCompile(`(^|[^A-Za-z])(` + regexp.QuoteMeta(stepF) + `|` + regexp.QuoteMeta(ptsF) + `)$`)
 	isValidatedField := func(s string) bool {
 		s = strings.TrimSuffix(s, ")")
@@ -216,6 +217,19 @@ func rulesC15(w *World, r *Report) {
 			}
 			ds := newExprCtx(w).expr(stripConvert(bo.Y))
 			key := funcName(f) + ":div:" + shortExpr(ds)
+			// only divisors that can come from file/wire bytes (decoded fields, decoded integers) or from parameters are in scope
+			hostile := false
+			for _, mark := range []string{"secondsPerPoint", "numberOfPoints", ".step", "archiveCount", "SecondsPerPoint(", "NumberOfPoints(", "MaxRetention(", "Uint32(", "Uint64(", "unitMultiplier("} {
+				if strings.Contains(ds, mark) {
+					hostile = true
+				}
+			}
+			if regexp.MustCompile(`^p\d+$`).MatchString(ds) && pkgOf(f) == w.Lib {
+				hostile = true
+			}
+			if !hostile {
+				return
+			}
 			switch {
 			case isValidatedField(ds):
 				r.OK("C15.R4", key, w.instrPos(bo), "divisor is a validated ArchiveInfo field")
